@@ -23,10 +23,10 @@ def jobs(tier):
                          encodes=[fn, "_dbus_validate_bus_name_full", "_dbus_string_init_const_len"],
                          bounds=f"all byte strings of length 0..{n} over the full 256-byte alphabet, at offsets 0..2 of a {n+4}-byte DBusString; unwind {n+3}",
                          shape=f"{which}, N={n}", cost=n))
-    for n, tiers in ((6, ("quick", "thorough")), (8, ("thorough",))):
+    for n, tiers in ((6, ("quick", "thorough")), (10, ("quick", "thorough")), (8, ("thorough",)), (17, ("thorough",))):
         J.append(Job(name=f"d.utf8.N{n}", group="C16.d", harness="harness/C16_names.c",
                      defines={"WHICH": "utf8", "N": n, "PRE": 1}, real=[S], env=COMMON_ENV,
-                     unwind=n + 6, tiers=tiers, timeout=900,
+                     unwind=n + 6, tiers=tiers, timeout=900, mem_gb=24, extra=["--object-bits", "11"],
                      encodes=["_dbus_string_validate_utf8"],
                      bounds=f"all byte strings of length 0..{n}, offsets 0..1; unwind {n+3}", shape=f"utf8, N={n}", cost=n * 3))
     J.append(Job(name="a.range", group="C16.a", harness="harness/C16_range.c", real=[V, S], env=COMMON_ENV,
